@@ -79,8 +79,15 @@ class ClientConnectionJob(object):
     def denyConnection(self, reason):
         log.warning("client connection was denied: " + reason)
         # return failed handshake
-        self.daemon._handshake(self.csock, denied_reason=reason)
-        self.csock.close()
+        try:
+            self.daemon._handshake(self.csock, denied_reason=reason)
+        except Exception:
+            # the client may be gone already or may have sent garbage; that must not stop the accept loop that called us
+            ex_t, ex_v, ex_tb = sys.exc_info()
+            tb = errors.format_traceback(ex_t, ex_v, ex_tb)
+            log.warning("error during connect/handshake of a denied connection: %s; %s", ex_v, "\n".join(tb))
+        finally:
+            self.csock.close()
 
 
 class Housekeeper(threading.Thread):
